@@ -112,10 +112,15 @@ impl ElementVar {
     #[verifier::external_body]
     pub fn cs(&self) -> (r: ConstraintSystemRef<Fq>) { unimplemented!() }
 }
-// M-PRIME + zeta non-square: for den != 0 the flag is determined and the root is determined up to sign
-pub axiom fn m_isqrt_unique(den: int, f1: bool, y1: int, f2: bool, y2: int)
+// for den != 0 the flag is determined and the root is determined up to sign: PROVED from M-PRIME (no zero divisors, Fermat)
+// and zeta^((q-1)/2) == -1 (compute) in preludes/isqrt_unique.rs
+pub proof fn m_isqrt_unique(den: int, f1: bool, y1: int, f2: bool, y2: int)
     requires in_fq(den), den != 0, isqrt_ok(1, den, f1, y1), isqrt_ok(1, den, f2, y2)
-    ensures f1 == f2 && (y1 == y2 || y1 == fneg(y2));
+    ensures f1 == f2 && (y1 == y2 || y1 == fneg(y2))
+{
+    assert(isqrt_ok1(den, f1, y1) && isqrt_ok1(den, f2, y2));
+    lemma_isqrt_unique(den, f1, y1, f2, y2);
+}
 // M-DECAF: decoding with the other root gives the same group element (sign fix of step 6; for s = 0 the two
 // results are the two representatives (0, 1) and (0, -1) of the identity)
 pub axiom fn m_decaf_dec_root_indep(s: int, v: int)
@@ -258,7 +263,11 @@ def unit(mode):
     inn(Fn("conditionally_select", props=(tag,), preamble=bui,
            ensures=f"match r {{ Ok(x) => pv(x) == (if cond.bval() {{ pv(*true_value) }} else {{ pv(*false_value) }}), {E_} }}"),
         hdr="impl CondSelectGadget<Fq> for ElementVar", header_out="impl ElementVar")
-    u = Unit(name=f"r1cs_{mode}", preludes=base_preludes() + [("curve_spec.rs", None), ("r1cs.rs", None)],
+    from . import arksqrt as _ak
+    _P = fq["P"]
+    _sk = dict(G=pow(_ak.ZETA, (_P - 1) >> 47, _P), M=(_P - 1) >> 47, ZZ=_ak._zz_from_source())
+    more = [("ladder_lemmas.rs", None), ("pow_lemmas.rs", None), ("sarkar_lemmas.rs", _sk), ("ts_lemmas.rs", None), ("isqrt_unique.rs", None)] if sound else []
+    u = Unit(name=f"r1cs_{mode}", preludes=base_preludes() + [("curve_spec.rs", None), ("r1cs.rs", None)] + more,
              items=items, lemmas=lem + R1CS_LEMMAS + (COMPL_LEMMAS if not sound else ""), params=fq, global_subst=common_subst)
     u.raw = [(INN, "struct", "ElementVar")]
     u.raw_strip = ("Clone",)
